@@ -12,7 +12,11 @@ if "CONFIRMED" not in r.stdout.splitlines()[-1:][0] or "NOT-CONFIRMED" in r.stdo
 dst = os.path.join(root, "seeded", name)
 os.makedirs(dst, exist_ok=True)
 for f in os.listdir(mutdir):
-    shutil.copy(os.path.join(mutdir, f), os.path.join(dst, f))
+    src = os.path.join(mutdir, f)
+    if os.path.isdir(src):
+        shutil.copytree(src, os.path.join(dst, f), dirs_exist_ok=True)
+    else:
+        shutil.copy(src, os.path.join(dst, f))
 meta = json.load(open(os.path.join(dst, "meta.json")))
 meta["confirmed_by_integrator"] = {
     "procedure": "tools/confirm_mut.sh: fresh scratch worktree of /repo HEAD; demo passes without the patch; patch applies; cargo nextest run --workspace --offline passes with the patch; demo fails with the patch",
